@@ -82,10 +82,12 @@ Lemma map_keys_nodupb ord (k : schema) (l : list (val * val)) :
    | KInsertion => nodupb (map (fun kv => enc k (fst kv)) l)
    | KBytewise => sortedb (map (fun kv => enc k (fst kv)) l)
    | KRewardAddr => sortedb (map (fun kv => reward_sort_key (enc k (fst kv))) l)
+   | KMulti => true
    end) = true ->
+  (match ord with KMulti => nodupb (map (fun kv => enc k (fst kv)) l) | _ => true end) = true ->
   nodupb (map (fun kv => enc k (fst kv)) l) = true.
 Proof.
-  destruct ord; intros H; [exact H|apply sortedb_nodupb; exact H|].
+  destruct ord; intros H H2; [exact H|apply sortedb_nodupb; exact H| |exact H2].
   apply (nodupb_map_back reward_sort_key). rewrite map_map. apply sortedb_nodupb. exact H.
 Qed.
 
@@ -115,6 +117,18 @@ Proof.
   - destruct rs; destruct l; try discriminate. reflexivity.
   - destruct rs as [|r rt]; destruct l as [|v vt]; try discriminate.
     cbn [conf_sl wfs_sl wfv_sl to_items_sl forall2b] in *. split_ands.
+    rewrite (IH s r v) by assumption. rewrite IHt by assumption. reflexivity.
+Qed.
+
+Lemma conf_sl_tail_sound C K : sound_rel C K -> forall fs rs l o x,
+  conf_sl_tail C fs rs l o x = true -> wfs_sl fs = true -> wfv_sl fs l = true -> wfs o = true -> wfv o x = true ->
+  forall2b K rs (to_items_sl fs l ++ [to_item o x]) = true.
+Proof.
+  intros IH. induction fs as [|s t IHt]; intros rs l o x Hc Hs Hv Ho Hx.
+  - destruct rs as [|ro [|? ?]]; destruct l; try discriminate. cbn [conf_sl_tail to_items_sl app forall2b] in *.
+    rewrite (IH o ro x) by assumption. reflexivity.
+  - destruct rs as [|r rt]; destruct l as [|v vt]; try discriminate.
+    cbn [conf_sl_tail wfs_sl wfv_sl to_items_sl app forall2b] in *. split_ands.
     rewrite (IH s r v) by assumption. rewrite IHt by assumption. reflexivity.
 Qed.
 
@@ -251,7 +265,19 @@ Qed.
 
 Lemma cs_mapof e C K lo ord k v' : sound_rel C K -> step_goal e C K (SMapOf lo ord k v').
 Proof.
-  intros IH r v Hc Hs Hv. unfold conf_struct in Hc. case_hyp Hc. cbn [to_item cddl_body wfs wfv] in *. split_ands.
+  intros IH r v Hc Hs Hv.
+  (* keys are pairwise distinct: from the order invariant of wfv, or (KMulti) from the check conforms makes itself *)
+  assert (Hkeys : forall lo' rk rv l, r = RMapOf lo' rk rv -> v = VMap l ->
+                  nodupb (map (fun kv : val * val => enc k (fst kv)) l) = true).
+  { intros lo' rk rv l -> ->. cbn [conf_struct wfv] in Hc, Hv. unfold conf_struct in Hc. split_ands.
+    destruct ord; first [assumption | apply sortedb_nodupb; assumption
+                        | apply (nodupb_map_back reward_sort_key); rewrite map_map; apply sortedb_nodupb; assumption]. }
+  destruct r; try (unfold conf_struct in Hc; case_hyp Hc; discriminate Hc).
+  destruct v as [| | | | | | | | |l|]; try (unfold conf_struct in Hc; case_hyp Hc; discriminate Hc).
+  specialize (Hkeys lo0 r1 r2 l eq_refl eq_refl).
+  assert (Hc' : (lo0 <=? len l) && forallb (fun kv => C k r1 (fst kv) && C v' r2 (snd kv)) l = true).
+  { unfold conf_struct in Hc. apply andb_true_iff in Hc as [Hc _]. exact Hc. }
+  clear Hc. cbn [to_item cddl_body wfs wfv] in *. split_ands.
   match goal with H : forallb (fun kv => wfv k (fst kv) && wfv v' (snd kv)) l = true |- _ => rename H into Hall end.
   match goal with H : forallb (fun kv => C k _ (fst kv) && C v' _ (snd kv)) l = true |- _ => rename H into Hcl end.
   rewrite len_map. unfold len in *. rw_hyps. cbn [andb]. rewrite forallb_map, map_map. cbn [fst snd].
@@ -259,9 +285,8 @@ Proof.
   - apply forallb_in_true. intros [x y] Hx. cbn [fst snd].
     pose proof (forallb_In _ _ _ Hall Hx) as W. pose proof (forallb_In _ _ _ Hcl Hx) as Q. cbn [fst snd] in *. split_ands.
     rewrite (IH k r1 x), (IH v' r2 y) by assumption. reflexivity.
-  - apply (nodup_items (fun kv : val * val => to_item k (fst kv)) (fun kv => enc k (fst kv))).
-    + intros [x y] Hx. cbn [fst]. apply to_item_enc. pose proof (forallb_In _ _ _ Hall Hx) as W. cbn [fst snd] in W. split_ands. assumption.
-    + eapply map_keys_nodupb. eassumption.
+  - apply (nodup_items (fun kv : val * val => to_item k (fst kv)) (fun kv => enc k (fst kv))); [|exact Hkeys].
+    intros [x y] Hx. cbn [fst]. apply to_item_enc. pose proof (forallb_In _ _ _ Hall Hx) as W. cbn [fst snd] in W. split_ands. assumption.
 Qed.
 
 Lemma cs_nullable e C K s : sound_rel C K -> rec_le K (cddl_body e K) -> step_goal e C K (SNullable s).
@@ -324,6 +349,16 @@ Proof.
   - (* RRatio *) unfold conf_struct in Hc. case_hyp Hc. cbn [to_item to_items_sl cddl_body]. exact Hc.
 Qed.
 
+Lemma cs_arropt e C K fs o : sound_rel C K -> step_goal e C K (SArrOpt fs o).
+Proof.
+  intros IH r v Hc Hs Hv. cbn [wfs] in Hs. split_ands.
+  destruct v as [| | | | | | | | | |i v]; try discriminate Hv.
+  destruct i as [|[|i]]; destruct v as [| | | | | |l| | | |]; cbn [wfv] in Hv; try discriminate Hv.
+  - unfold conf_struct in Hc. case_hyp Hc. cbn [to_item cddl_body]. eapply conf_sl_sound; eassumption.
+  - destruct l as [|x l]; [discriminate Hv|]. split_ands. unfold conf_struct in Hc. case_hyp Hc.
+    cbn [to_item cddl_body]. eapply conf_sl_tail_sound; eassumption.
+Qed.
+
 (* ---------- assembly ---------- *)
 Lemma conf_struct_sound e C K : sound_rel C K -> rec_le K (cddl_body e K) -> forall s, step_goal e C K s.
 Proof.
@@ -335,6 +370,7 @@ Proof.
   - (* SChoice: transparent, never structural *) intros r v Hc _ _. unfold conf_struct in Hc. case_hyp Hc; discriminate Hc.
   - apply cs_tagchoice; assumption. - apply cs_arrany; assumption. - apply cs_bbytes.
   - (* SNamed *) intros r v Hc _ _. unfold conf_struct in Hc. case_hyp Hc; discriminate Hc.
+  - apply cs_arropt; assumption.
 Qed.
 
 Lemma conf_body_sound e C K : sound_rel C K -> rec_le K (cddl_body e K) ->
